@@ -24,7 +24,9 @@
 //!     `exch off|on|stop`                     the exchange task is not scheduled / scheduled / aborted
 //!     `adv <ms>`                             virtual time
 //!     `sub`                                  a new `account_stream` subscriber (numbered 0, 1, …)
-//!     `poll <s>`                             drains subscriber s
+//!     `poll <s>`                             drains subscriber s (polled under `tokio::task::unconstrained`
+//!                                            until it is pending or has ended)
+//!   `<t>` / `<since>` must be milliseconds inside chrono's `DateTime<Utc>` range, else `bad-op`
 use barter_execution::{
     AccountEventKind, InstrumentAccountSnapshot, UnindexedAccountEvent, UnindexedAccountSnapshot,
     balance::{AssetBalance, Balance},
@@ -76,6 +78,17 @@ fn time_ms(ms: i64) -> DateTime<Utc> {
     Utc.timestamp_millis_opt(ms).unwrap()
 }
 
+/// `DateTime::<Utc>::MAX_UTC.timestamp_millis()` (+262142-12-31T23:59:59.999999999Z)
+const MAX_MS: i64 = 8_210_266_876_799_999;
+/// `DateTime::<Utc>::MIN_UTC.timestamp_millis()` (-262143-01-01T00:00:00Z)
+const MIN_MS: i64 = -8_334_601_228_800_000;
+
+/// a time the client clock / a query can carry at all: outside chrono's range there is no
+/// `DateTime<Utc>`, the op is not an input (`bad-op`, as in the driver's `parseTime`)
+fn parse_time(s: &str) -> Option<i64> {
+    s.parse::<i64>().ok().filter(|ms| (MIN_MS..=MAX_MS).contains(ms))
+}
+
 fn asset_name(a: usize) -> AssetNameExchange {
     AssetNameExchange::new(format!("a{a}"))
 }
@@ -84,9 +97,10 @@ fn asset_index(a: &AssetNameExchange) -> usize {
     a.as_ref()[1..].parse().expect("asset name a<idx>")
 }
 
-/// zero padded: the string order of the names is the order of the indices
+/// zero padded to the 20 digits of `usize::MAX`: the string order of the names is the order of the
+/// indices for EVERY index (5 digits broke at 100000: audit/sub/report_A.md C08C item 7)
 fn instr_name(i: usize) -> InstrumentNameExchange {
-    InstrumentNameExchange::new(format!("i{i:05}"))
+    InstrumentNameExchange::new(format!("i{i:020}"))
 }
 
 fn instr_index(i: &InstrumentNameExchange) -> usize {
@@ -457,7 +471,7 @@ fn parse_call(op: &[String]) -> Option<CallKind> {
         ("snap", 0) => CallKind::Snap,
         ("balances", 0) => CallKind::Balances,
         ("orders", 0) => CallKind::Orders,
-        ("trades", 1) => CallKind::Trades(rest[0].parse().ok()?),
+        ("trades", 1) => CallKind::Trades(parse_time(&rest[0])?),
         ("cancel", 3) => CallKind::Cancel {
             instrument: instr_name(rest[0].parse().ok()?),
             strategy: StrategyId::new(format!("s{}", rest[1].parse::<usize>().ok()?)),
@@ -743,9 +757,9 @@ fn run_case(case: &Case, lines: &mut Vec<String>) {
             lines.push("@".into());
             let mut ok = true;
             match (op[0].as_str(), op.len()) {
-                ("clock", 2) => match op[1].parse::<i64>() {
-                    Ok(t) => now.store(t, Ordering::SeqCst),
-                    Err(_) => ok = false,
+                ("clock", 2) => match parse_time(&op[1]) {
+                    Some(t) => now.store(t, Ordering::SeqCst),
+                    None => ok = false,
                 },
                 ("call", n) if n >= 3 => {
                     let w = op[1].parse::<usize>().ok().filter(|w| *w < workers.len());
@@ -796,7 +810,12 @@ fn run_case(case: &Case, lines: &mut Vec<String>) {
                         let mut ended = subs[s].is_none();
                         if let Some(stream) = subs[s].as_mut() {
                             loop {
-                                match stream.next().now_or_never() {
+                                // `unconstrained`: tokio's cooperative budget (128 per task poll) would
+                                // make the broadcast receiver answer `Pending` after 128 values although
+                                // more are waiting; the budget is a scheduling artefact (the consumer is
+                                // simply polled again), not part of the protocol. Without it a poll of a
+                                // subscriber 129..256 values behind (production capacity 256) was cut.
+                                match tokio::task::unconstrained(stream.next()).now_or_never() {
                                     Some(Some(ev)) => lines.push(event_line(&ev)),
                                     Some(None) => {
                                         ended = true;
@@ -1042,6 +1061,10 @@ fn gen_op(rng: &mut Rng, w: &mut World, out: &mut Out) {
         w.now += ms;
     } else if r < 68 {
         w.clock = if rng.chance(85) { w.clock + *rng.pick(&[0i64, 1, 1, 2, 50, 1000]) } else { rng.range(-3, 60) };
+        if w.clock > MAX_MS {
+            // one step past the end now and then (`bad-op` on both sides), else the very end
+            w.clock = if rng.chance(20) { MAX_MS + 1 } else { MAX_MS };
+        }
         out.line(format!("clock {}", w.clock));
     } else if r < 76 {
         out.line("sub");
@@ -1076,7 +1099,59 @@ fn gen_op(rng: &mut Rng, w: &mut World, out: &mut Out) {
     w.settle();
 }
 
+/// long burst on a big channel (the production capacity is 256, builder.rs:96): one subscriber is
+/// polled only after `2 m` notifications are waiting (129..=cap: handed all of them in ONE poll; more
+/// than the capacity: `Lagged`, the stream ends with nothing), a second one keeps up, a third is
+/// polled at the very end
+fn gen_burst(rng: &mut Rng, out: &mut Out) {
+    let latency = *rng.pick(&[0u64, 1, 2]);
+    let cap = *rng.pick(&[128usize, 129, 200, 256, 256, 256]);
+    let real_cap = cap.next_power_of_two();
+    out.line(format!("cfg {latency} 0 {cap} 2 100000 100000 1 0:1"));
+    out.line("start 1");
+    out.line("sub");
+    out.line("sub");
+    out.line("sub");
+    // number of accepted orders: 2 m events; around the 128 of the coop budget, around the capacity, beyond
+    let m = match rng.below(4) {
+        0 => rng.range(64, 66) as usize,
+        1 => real_cap / 2 - rng.below(3) as usize,
+        2 => real_cap / 2 + 1 + rng.below(20) as usize,
+        _ => rng.range(65, (real_cap / 2).max(66) as i64) as usize,
+    };
+    let keep_up_every = rng.range(10, 60) as usize;
+    for i in 0..m {
+        if rng.chance(3) {
+            out.line(format!("clock {}", i * 10));
+        }
+        // now and then a rejected order in between (no notification)
+        if rng.chance(5) {
+            out.line(format!("call 0 open 0 B M 1000000 1 0 {} 0", 5000 + i));
+            out.line(format!("adv {latency}"));
+        }
+        out.line(format!("call 0 open 0 {} M 1 1 0 {i} 0", if rng.chance(50) { "B" } else { "S" }));
+        out.line(format!("adv {latency}"));
+        if i % keep_up_every == keep_up_every - 1 {
+            out.line("poll 1");
+        }
+    }
+    out.line("poll 0");
+    out.line("poll 0");
+    out.line("poll 1");
+    if rng.chance(50) {
+        out.line("exch stop");
+    }
+    out.line("poll 2");
+    out.line("poll 0");
+    out.line("poll 1");
+    out.line("poll 2");
+}
+
 fn gen_case(rng: &mut Rng, out: &mut Out, big: bool) {
+    if rng.chance(1) {
+        gen_burst(rng, out);
+        return;
+    }
     let mut w = gen_cfg(rng, out);
     if rng.chance(1) {
         out.line("dcancel");
@@ -1086,6 +1161,12 @@ fn gen_case(rng: &mut Rng, out: &mut Out, big: bool) {
     if rng.chance(70) {
         out.line("sub");
         w.subs += 1;
+    }
+    if rng.chance(3) {
+        // the end of chrono's range: `update_time_exchange` falls back to the request time when
+        // `time_request + latency / 2` is no `DateTime<Utc>`
+        w.clock = MAX_MS - rng.range(0, 120);
+        out.line(format!("clock {}", w.clock));
     }
     let len = rng.range(0, if big { 70 } else { 30 });
     // a quarter of the cases lose their exchange somewhere in the last 40 % of the history
